@@ -475,8 +475,27 @@ func c15ReadSQL(c *fw.Case) {
 
 func c15ToSQL(c *fw.Case) {
 	rng := c.Rng
-	f := model.GenFrame(rng, model.GenOpts{Rows: 1 + rng.Intn(15), MinCols: 1, MaxCols: 4, NoCR: true, UTF8: true, Names: []string{"a", "b", "c", "d"}})
-	root, err := model.MakeRootFrom(rng, f, 2, false)
+	rows := 1 + rng.Intn(15)
+	if rng.Intn(3) == 0 {
+		// row counts at and around the sizes a writer may batch by (per statement parameter limits divided by the column count)
+		rows = []int{99, 100, 127, 128, 199, 200, 249, 250, 256, 333, 334, 499, 500, 512, 666, 999, 1000, 1001, 1024, 1998}[rng.Intn(20)]
+	}
+	f := model.GenFrame(rng, model.GenOpts{Rows: rows, MinCols: 1, MaxCols: 5, NoCR: true, UTF8: true, Names: []string{"a", "b", "c", "d", "e"}})
+	steps := 2
+	if rows > 20 {
+		ncols := 1 + rng.Intn(5)
+		if rng.Intn(2) == 0 {
+			// exact multiples (and neighbours) of "parameter limit / number of columns", the usual size of a multi-row statement
+			limit := []int{999, 999, 999, 100, 128, 256, 500, 512, 1000, 1024, 2100}[rng.Intn(11)]
+			rows = (1+rng.Intn(2))*(limit/ncols) + []int{0, 0, 0, -1, 1}[rng.Intn(5)]
+			if rows < 1 {
+				rows = 1
+			}
+		}
+		f = model.GenFrame(rng, model.GenOpts{Rows: rows, MinCols: ncols, MaxCols: ncols, NoCR: true, UTF8: true, NoNull: true, SmallInts: true, LowCard: 3, Kinds: []model.Kind{model.KInt, model.KBool, model.KFloat}, Names: []string{"a", "b", "c", "d", "e"}})
+		steps = 0 // keep the row count
+	}
+	root, err := model.MakeRootFrom(rng, f, steps, false)
 	if err != nil || len(root.Shadow.Cols) == 0 {
 		return
 	}
@@ -486,6 +505,7 @@ func c15ToSQL(c *fw.Case) {
 		d["operation"] = "ToSQL with the driver failing at Prepare and at every Exec number"
 		return d
 	})
+	fired := 0
 	run := func(f memsql.Faults) (err error, execs int) {
 		db := memsql.New()
 		db.Faults = f
@@ -497,6 +517,7 @@ func c15ToSQL(c *fw.Case) {
 		}
 		defer tx.Rollback() //nolint
 		err = root.QF.ToSQL(tx, qsql.Table("t"))
+		fired = db.Fired
 		for _, e := range db.Log {
 			if e.Kind == "exec" {
 				execs++
@@ -505,15 +526,29 @@ func c15ToSQL(c *fw.Case) {
 		return err, execs
 	}
 	var ferr error
-	if pv, _ := fw.Guard(func() { ferr, _ = run(memsql.NoFaults()) }); pv != nil || ferr != nil {
+	nexec := 0
+	if pv, _ := fw.Guard(func() { ferr, nexec = run(memsql.NoFaults()) }); pv != nil || ferr != nil {
 		c.Count("inputs_rejected_fault_free", 1)
 		return
 	}
 	c.Count("inputs:ToSQL", 1)
+	// fault positions: Prepare and every Exec call of the fault-free run (for long runs the first and last ones and a sample)
+	positions := []int{-1}
+	if nexec <= 40 {
+		for s := 0; s < nexec; s++ {
+			positions = append(positions, s)
+		}
+	} else {
+		positions = append(positions, 0, 1, nexec/2, nexec-3, nexec-2, nexec-1)
+		for k := 0; k < 6; k++ {
+			positions = append(positions, rng.Intn(nexec))
+		}
+		c.Count("long_tosql_runs", 1)
+	}
 	reported := 0
-	for s := -1; s < n; s++ {
+	for _, s := range positions {
 		f := memsql.NoFaults()
-		name := fmt.Sprintf("Exec #%d of %d", s, n)
+		name := fmt.Sprintf("Exec #%d of %d (%d rows)", s, nexec, n)
 		if s == -1 {
 			f.Prepare = true
 			name = "Prepare"
@@ -533,6 +568,10 @@ func c15ToSQL(c *fw.Case) {
 				c.Fail("panic:ToSQL", "ToSQL panicked with a driver fault at %s: %v\n%s", name, pv, clip(stack, 1000))
 			}
 			reported++
+			continue
+		}
+		if fired == 0 {
+			c.Count("fault_not_reached:ToSQL", 1)
 			continue
 		}
 		if werr == nil {
